@@ -52,10 +52,20 @@ Proof. split; reflexivity. Qed.
 Example tunnel_reserved_bits : tunnel_rx (new_cpx F_CRTP T_HOST T_STM32 [0x52; 7]) = Some (mk_crtp 0x5E 5 2 [7]).
 Proof. reflexivity. Qed.
 
-(* the length attribute is what the prefix is built from: a packet whose data was replaced after
-   construction (c_len stale) is NOT framed correctly — hence c_len = zlen data in wf_cpx *)
-Example stale_length_breaks_framing :
-  fst (read_packet [frame (mk_cpx 3 1 3 false 0 0 [1; 2; 3])]) = Ok (mk_cpx 3 1 3 false 0 0 []).
+(* a packet whose data was replaced after construction (c_len stale: 0) is framed by its data (fix F18b) *)
+Example stale_length_framed_by_data :
+  fst (read_packet [frame (mk_cpx 3 1 3 false 0 0 [1; 2; 3])]) = Ok (mk_cpx 3 1 3 false 0 3 [1; 2; 3]).
+Proof. reflexivity. Qed.
+
+(* short writes: sendall gets everything out, one send call did not *)
+Example sendall_short_writes : sendall [1; 2; 1] (frame p2) = frame p2 /\ send_once [1; 2; 1] (frame p2) = [4].
+Proof. split; reflexivity. Qed.
+
+(* facade: request out, reply in, close *)
+Example cpx_session_example :
+  snd (c_run [3] (mk_cs [[6]; [0; 25]; [3; 252; 1]; [2; 3]] r_init true)
+         [CSend p3; CTransact p1 1; CClose; CSend p3; CRecv F_CRTP])
+  = [OSent (Ok (frame p3)); OTrans (Ok (frame p1)) (Some p1); OClose true; OSent (Exc AttributeErr); ORecv F_CRTP None].
 Proof. reflexivity. Qed.
 
 (* all_chunkings enumerates 2^(n-1) fragmentations *)
@@ -80,8 +90,9 @@ Proof. reflexivity. Qed.
 Example uart_bad_crc_still_delivered :
   uart_read [255; 4; 99; 5; 200; 201; 0] false = (UPacket (Ok p2) false, [], false).
 Proof. reflexivity. Qed.
-(* oversize packet: refused WITH THE LOCK LEFT HELD, so every later write waits for a clear-to-send *)
-Example uart_oversize_keeps_lock :
-  uart_write false (new_cpx 5 T_STM32 T_HOST (repeat 0 99)) = (WTooLarge, true) /\
+(* oversize packet: refused, lock untouched (fix F18c); before the fix the lock stayed held *)
+Example uart_oversize :
+  uart_write false (new_cpx 5 T_STM32 T_HOST (repeat 0 99)) = (WTooLarge, false) /\
+  uart_write_old false (new_cpx 5 T_STM32 T_HOST (repeat 0 99)) = (WTooLarge, true) /\
   uart_write true p3 = (WBlocked, true).
-Proof. split; reflexivity. Qed.
+Proof. repeat split; reflexivity. Qed.
